@@ -12,6 +12,7 @@ import (
 	"fmt"
 	"io"
 	"net"
+	"sync"
 	"time"
 
 	"compress/flate"
@@ -98,7 +99,35 @@ func (c *Conn) writer(ctx context.Context, typ MessageType) (io.WriteCloser, err
 	if err != nil {
 		return nil, err
 	}
-	return c.msgWriter, nil
+	return &msgWriterHandle{mw: c.msgWriter}, nil
+}
+
+// msgWriterHandle is what a single call of Writer returns. The closed state belongs to the
+// handle, not to the shared msgWriter, so that a handle of a finished message cannot
+// write to or close the message of a later writer.
+type msgWriterHandle struct {
+	mw     *msgWriter
+	mu     sync.Mutex
+	closed bool
+}
+
+func (h *msgWriterHandle) Write(p []byte) (int, error) {
+	h.mu.Lock()
+	defer h.mu.Unlock()
+	if h.closed {
+		return 0, errors.New("cannot use closed writer")
+	}
+	return h.mw.Write(p)
+}
+
+func (h *msgWriterHandle) Close() error {
+	h.mu.Lock()
+	defer h.mu.Unlock()
+	if h.closed {
+		return errors.New("failed to close writer: writer already closed")
+	}
+	h.closed = true
+	return h.mw.Close()
 }
 
 func (c *Conn) write(ctx context.Context, typ MessageType, p []byte) (int, error) {
